@@ -14,6 +14,7 @@ CONSTANTS
   KwChoices = {{"get", "keys"}, {"get"}}
   LookOps = {"get", "keys"}
   OffChoices = {{}}
+  Stars = FALSE
   ReReg = FALSE
   AllOrders = FALSE
   PrintUniverse = FALSE
